@@ -58,6 +58,13 @@ class Ctx:
         self.exhaustive = True
         self._kf = self._load_findings()
         self._nrep = 0
+        # replays of an earlier run with the same (property, tier, seed) are stale
+        import glob
+        for old in glob.glob(os.path.join(VERIF, "replays", "%s-%s-%d-*.json" % (pid, tier, seed))):
+            try:
+                os.remove(old)
+            except OSError:
+                pass
 
     # ------------------------------------------------------------------ TLC
     def model_check(self, module, cfg, name=None, require_actions=(), **kw):
@@ -73,11 +80,26 @@ class Ctx:
             raise MachineryError("vacuous model run %s: actions never taken: %s" % (d["name"], never))
         return res
 
+    @staticmethod
+    def _sanitize(x):
+        """TLC's JSON reader knows ints, strings, booleans, arrays and objects only"""
+        if x is None:
+            return "null"
+        if isinstance(x, bool) or isinstance(x, int) or isinstance(x, str):
+            return x
+        if isinstance(x, float):
+            return int(x) if x == int(x) and abs(x) < 2 ** 31 else repr(x)
+        if isinstance(x, dict):
+            return {str(k): Ctx._sanitize(v) for k, v in x.items()}
+        if isinstance(x, (list, tuple)):
+            return [Ctx._sanitize(v) for v in x]
+        return str(x)
+
     def write_trace(self, records, name):
         path = os.path.join(self.scratch, name + ".ndjson")
         with open(path, "w") as f:
             for r in records:
-                f.write(json.dumps(r, separators=(",", ":")) + "\n")
+                f.write(json.dumps(self._sanitize(r), separators=(",", ":")) + "\n")
         return path
 
     def validate(self, module, cfg, records, name="trace", ntraces=None, env=None, timeout=3000, chunk=20000):
